@@ -300,7 +300,11 @@ open Clean
 /-! ## main theorems -/
 
 /-- a row `head <blanks> = <blanks> n <blanks>` whose tail is integer-looking or a non-zero float literal
-is rewritten to the normal form `head = n` -/
+is rewritten to the normal form `head = n`.  (The hypotheses of this and the next five theorems spell out
+the shape of the row — the decomposition `head`, blanks, `=`, blanks, `n`, blanks is unique: `head` ends in a
+non-blank and has no `=`, `n` is stripped and has no `=` (for a float literal a consequence, `Lit.not_mem`) —
+and which case of `_cleanNumericValues` applies; together with `cleanRow_minmax`, `cleanRow_no_eq` and
+`cleanRow_not_number` the cases cover every row with at most one `=`.) -/
 theorem cleanRow_spacing (head w1 w2 n w3 : Txt)
     (hh : rstrip head = head) (hhe : '=' ∉ head) (hw1 : AllSpace w1) (hw2 : AllSpace w2) (hw3 : AllSpace w3)
     (hn : stripList n = n) (hne : '=' ∉ n)
@@ -440,5 +444,253 @@ example : cleanRow (t "    number = 007") = t "    number = 007" :=
 example : cleanRow (t "    value   =0.00  ") = t "    value = 0" :=
   cleanRow_zero (t "    value") (t "   ") [] (t "0.00") (t "  ") (by decide) (by decide)
     (allSpace_of_all _ (by decide)) allSpace_nil (allSpace_of_all _ (by decide)) (by decide) (by decide) (by decide) (by decide) (by decide) (by decide)
+
+/-! ## numerals: what a `float()` literal can consist of
+
+A *numeral* (`Lit`) is any string `float()` accepts and `strip()` leaves alone.  Every such string consists of
+digits, `_`, `.`, `e`/`E`, signs and the letters of `inf` / `infinity` / `nan` (`fclass_chars`), so it contains
+no newline, `=`, `<`, `?`, `:`, blank, and none of the letters `s`, `w`, `x`, `m`: every character condition the
+round-trip proofs need of a numeral is a consequence (`Lit.not_mem`), not an extra hypothesis. -/
+
+/-- a numeral: any string `float()` accepts and `strip()` leaves alone (every `repr()` of a float or int) -/
+def Lit (n : Txt) : Prop := stripList n = n ∧ (fclass n).isSome
+
+/-- the characters a `float()` literal can consist of (ASCII): digits, `_`, `.`, exponent marker, signs, and the
+letters of `inf` / `infinity` / `nan` in either case -/
+def numChar (c : Char) : Bool := isDigit c || "_.eE+-infatyINFATY".toList.contains c
+
+theorem digitsGo_prefix (s : Txt) : ∀ (acc d r : Txt), digitsGo s acc = (d, r) →
+    ∃ u, s = u ++ r ∧ ∀ c ∈ u, numChar c = true := by
+  induction s with
+  | nil => intro acc d r h; simp only [digitsGo, Prod.mk.injEq] at h; exact ⟨[], by simp [h.2], by simp⟩
+  | cons c cs ih =>
+    intro acc d r h
+    have step : ∀ acc', digitsGo cs acc' = (d, r) → numChar c = true →
+        ∃ u, c :: cs = u ++ r ∧ ∀ x ∈ u, numChar x = true := by
+      intro acc' h' hc
+      obtain ⟨u, hu, hall⟩ := ih _ _ _ h'
+      refine ⟨c :: u, by rw [List.cons_append, ← hu], ?_⟩
+      intro x hx
+      rcases List.mem_cons.1 hx with rfl | hx
+      · exact hc
+      · exact hall x hx
+    have stop : (acc.reverse, c :: cs) = (d, r) → ∃ u, c :: cs = u ++ r ∧ ∀ x ∈ u, numChar x = true := by
+      intro h'
+      simp only [Prod.mk.injEq] at h'
+      exact ⟨[], by simp [h'.2], by simp⟩
+    by_cases hc : isDigit c = true
+    · simp only [digitsGo, hc, if_true] at h
+      exact step _ h (by simp [numChar, hc])
+    · cases cs with
+      | nil =>
+        simp only [digitsGo, hc, if_false, Bool.false_eq_true, Bool.and_false] at h
+        exact stop h
+      | cons d2 ds =>
+        rw [digitsGo] at h
+        simp only [hc, if_false, Bool.false_eq_true] at h
+        split at h
+        · rename_i hc2
+          have : c = '_' := by simp only [Bool.and_eq_true, beq_iff_eq] at hc2; exact hc2.1.1
+          exact step _ h (by subst this; decide)
+        · exact stop h
+
+theorem splitSign_chars (s : Txt) : ∃ u, s = u ++ (splitSign s).2 ∧ ∀ c ∈ u, numChar c = true := by
+  unfold splitSign
+  split
+  · exact ⟨['-'], by simp, by decide⟩
+  · exact ⟨['+'], by simp, by decide⟩
+  · exact ⟨[], by simp, by simp⟩
+
+def lc (c : Char) : Char := if 'A' ≤ c ∧ c ≤ 'Z' then Char.ofNat (c.toNat + 32) else c
+
+theorem lower_mem (s : Txt) (c : Char) (h : c ∈ s) : lc c ∈ lower s := by
+  unfold lower
+  exact List.mem_map.2 ⟨c, h, rfl⟩
+
+theorem lc_letters : ∀ c : Char, lc c ∈ "infinityan".toList → numChar c = true := by
+  intro c h
+  unfold lc at h
+  split at h
+  · rename_i hu
+    have h1 : 'A'.val ≤ c.val := hu.1
+    have h2 : c.val ≤ 'Z'.val := hu.2
+    rw [UInt32.le_iff_toNat_le] at h1 h2
+    have h1 : 65 ≤ c.toNat := h1
+    have h2 : c.toNat ≤ 90 := h2
+    have hc : Char.ofNat c.toNat = c := Char.ofNat_toNat c
+    have key : ∀ k : Fin 26, Char.ofNat (65 + k.val + 32) ∈ "infinityan".toList → numChar (Char.ofNat (65 + k.val)) = true := by decide
+    have := key ⟨c.toNat - 65, by omega⟩
+    simp only at this
+    have e : 65 + (c.toNat - 65) = c.toNat := by omega
+    rw [e, hc] at this
+    exact this h
+  · have : c ∈ ['i','n','f','i','n','i','t','y','a','n'] := h
+    simp only [List.mem_cons, List.not_mem_nil, or_false] at this
+    rcases this with rfl | rfl | rfl | rfl | rfl | rfl | rfl | rfl | rfl | rfl <;> decide
+
+theorem inf_sub : ∀ x : Char, (x ∈ "inf".toList ∨ x ∈ "infinity".toList ∨ x ∈ "nan".toList) → x ∈ "infinityan".toList := by
+  intro x h
+  have e1 : "inf".toList = ['i','n','f'] := rfl
+  have e2 : "infinity".toList = ['i','n','f','i','n','i','t','y'] := rfl
+  have e3 : "nan".toList = ['n','a','n'] := rfl
+  have e4 : "infinityan".toList = ['i','n','f','i','n','i','t','y','a','n'] := rfl
+  rw [e1, e2, e3] at h; rw [e4]
+  simp only [List.mem_cons, List.not_mem_nil, or_false] at h ⊢
+  rcases h with (h | h | h) | (h | h | h | h | h | h | h | h) | (h | h | h) <;> simp [h]
+
+theorem lower_chars (body L : Txt) (h : lower body = L)
+    (hL : L = "inf".toList ∨ L = "infinity".toList ∨ L = "nan".toList) : ∀ c ∈ body, numChar c = true := by
+  intro c hc
+  apply lc_letters
+  have := lower_mem body c hc
+  rw [h] at this
+  apply inf_sub
+  rcases hL with rfl | rfl | rfl
+  · exact Or.inl this
+  · exact Or.inr (Or.inl this)
+  · exact Or.inr (Or.inr this)
+
+theorem fclass_numStrip_chars (s : Txt) (h : (fclass s).isSome) : ∀ c ∈ numStrip s, numChar c = true := by
+  unfold fclass at h
+  generalize numStrip s = ns at *
+  obtain ⟨u0, hu0, hall0⟩ := splitSign_chars ns
+  generalize hsp : splitSign ns = sp at *
+  obtain ⟨negv, body⟩ := sp
+  simp only at h hu0
+  suffices hb : ∀ c ∈ body, numChar c = true by
+    intro c hc
+    rw [hu0] at hc
+    rcases List.mem_append.1 hc with hc | hc
+    · exact hall0 c hc
+    · exact hb c hc
+  split at h
+  · rename_i hi
+    rcases hi with hi | hi
+    · exact lower_chars body _ hi (Or.inl rfl)
+    · exact lower_chars body _ hi (Or.inr (Or.inl rfl))
+  · split at h
+    · rename_i hi
+      exact lower_chars body _ hi (Or.inr (Or.inr rfl))
+    · generalize hd1 : digitsGo body [] = p1 at h
+      obtain ⟨d1, r1⟩ := p1
+      obtain ⟨u1, hb1, hall1⟩ := digitsGo_prefix body [] d1 r1 hd1
+      simp only at h
+      have hcases : (∃ r, r1 = '.' :: r) ∨ (∀ r, r1 = '.' :: r → False) := by
+        cases r1 with
+        | nil => right; intro r hr; cases hr
+        | cons x xs =>
+          by_cases hx : x = '.'
+          · left; exact ⟨xs, by rw [hx]⟩
+          · right; intro r hr; simp only [List.cons.injEq] at hr; exact hx hr.1
+      -- `r2` (what follows the fraction part) is empty or an exponent part
+      have expo : ∀ (r2 : Txt) (o : Option Int), (match r2 with
+            | [] => some (0 : Int)
+            | e :: r =>
+              if e = 'e' ∨ e = 'E' then
+                if List.isEmpty (digitsGo (splitSign r).snd []).fst = true ∨
+                    (!List.isEmpty (digitsGo (splitSign r).snd []).snd) = true then none
+                else some (if (splitSign r).fst = true then -↑(digitsVal (digitsGo (splitSign r).snd []).fst)
+                    else ↑(digitsVal (digitsGo (splitSign r).snd []).fst))
+              else none) = o → o.isSome → ∀ c ∈ r2, numChar c = true := by
+        intro r2 o hex ho
+        split at hex
+        · intro c hc; simp at hc
+        · rename_i e r
+          split at hex
+          · rename_i he
+            split at hex
+            · subst hex; simp at ho
+            · rename_i hcond
+              simp only [not_or, Bool.not_eq_true, Bool.not_eq_eq_eq_not, Bool.not_true] at hcond
+              obtain ⟨us, hus, halls⟩ := splitSign_chars r
+              obtain ⟨u3, hu3, hall3⟩ := digitsGo_prefix (splitSign r).snd [] _ _ (Prod.ext rfl rfl : digitsGo (splitSign r).snd [] = ((digitsGo (splitSign r).snd []).fst, (digitsGo (splitSign r).snd []).snd))
+              have hnil : (digitsGo (splitSign r).snd []).snd = [] := by
+                have := hcond.2
+                cases hq : (digitsGo (splitSign r).snd []).snd with
+                | nil => rfl
+                | cons a as => rw [hq] at this; simp at this
+              rw [hnil, List.append_nil] at hu3
+              intro c hc
+              rcases List.mem_cons.1 hc with rfl | hc
+              · rcases he with rfl | rfl <;> decide
+              · rw [hus] at hc
+                rcases List.mem_append.1 hc with hc | hc
+                · exact halls c hc
+                · rw [hu3] at hc; exact hall3 c hc
+          · subst hex; simp at ho
+      have fin : ∀ v r2, r1 = v ++ r2 → (∀ c ∈ v, numChar c = true) → (∀ c ∈ r2, numChar c = true) →
+          ∀ c ∈ body, numChar c = true := by
+        intro v r2 hv hallv hr2 c hc
+        rw [hb1, hv] at hc
+        rcases List.mem_append.1 hc with hc | hc
+        · exact hall1 c hc
+        · rcases List.mem_append.1 hc with hc | hc
+          · exact hallv c hc
+          · exact hr2 c hc
+      rcases hcases with ⟨r, hr⟩ | hnd
+      · subst hr
+        simp only at h
+        obtain ⟨u2, hu2, hall2⟩ := digitsGo_prefix r [] _ _ (Prod.ext rfl rfl : digitsGo r [] = ((digitsGo r []).fst, (digitsGo r []).snd))
+        refine fin ('.' :: u2) (digitsGo r []).snd (by rw [List.cons_append, ← hu2]) ?_ ?_
+        · intro c hc
+          rcases List.mem_cons.1 hc with rfl | hc
+          · decide
+          · exact hall2 c hc
+        · split at h
+          · simp at h
+          · split at h
+            · simp at h
+            · rename_i E hE
+              exact expo _ _ hE rfl
+      · simp only at h
+        refine fin [] r1 (by simp) (by simp) ?_
+        split at h
+        · simp at h
+        · split at h
+          · simp at h
+          · rename_i E hE
+            exact expo _ _ hE rfl
+
+theorem stripLBy_head' (p : Char → Bool) (c : Char) (cs : Txt) (h : p c = false) : stripLBy p (c :: cs) = c :: cs := by
+  simp [stripLBy, h]
+
+theorem numSpace_of_not_space (c : Char) (h : pyIsSpace c = false) : isNumSpace c = false := by
+  simp [isNumSpace, h]
+
+/-- `strip()` leaves it alone ⇒ so does the blank-skipping of `float()` / `int()` -/
+theorem numStrip_of_stripped (n : Txt) (h : stripList n = n) : numStrip n = n := by
+  unfold numStrip
+  cases n with
+  | nil => rfl
+  | cons c cs =>
+    rw [stripLBy_head' _ c cs (numSpace_of_not_space c (head_of_stripped _ h c cs rfl))]
+    obtain ⟨d, hl, hd⟩ := last_of_stripped _ h (by simp)
+    cases hr : (c :: cs).reverse with
+    | nil => simp at hr
+    | cons e er =>
+      have : (c :: cs).getLast? = some e := by
+        rw [List.getLast?_eq_head?_reverse, hr]; rfl
+      rw [hl] at this; cases this
+      rw [stripLBy_head' _ d er (numSpace_of_not_space d hd), ← hr, List.reverse_reverse]
+
+/-- **every `float()` literal that `strip()` leaves alone consists of numeral characters only**: digits, `_`,
+`.`, `e`/`E`, signs, and the letters of `inf` / `infinity` / `nan` -/
+theorem fclass_chars (n : Txt) (hs : stripList n = n) (hf : (fclass n).isSome) : ∀ c ∈ n, numChar c = true := by
+  have := fclass_numStrip_chars n hf
+  rwa [numStrip_of_stripped n hs] at this
+
+/-- so such a literal contains none of the characters the readers and the cleaner key on -/
+theorem lit_not_mem (n : Txt) (hs : stripList n = n) (hf : (fclass n).isSome) (x : Char) (hx : numChar x = false) : x ∉ n := by
+  intro hm
+  rw [fclass_chars n hs hf x hm] at hx
+  cases hx
+
+theorem Lit.not_mem {n : Txt} (h : Lit n) (x : Char) (hx : numChar x = false) : x ∉ n := lit_not_mem n h.1 h.2 x hx
+
+theorem Lit.ne_nil {n : Txt} (h : Lit n) : n ≠ [] := by
+  intro e; subst e
+  have : fclass [] = none := by decide
+  have h2 := h.2
+  rw [this] at h2; cases h2
 
 end C19
